@@ -167,6 +167,35 @@ func c16Eval(c *ctx, cs c16Case) {
 			return
 		}
 		c16Msg(c, cs, m)
+	case "rename":
+		// a fill whose value is a name renames the variable; an item filled into a list variable brings its own names.
+		// Whatever is accepted must still list every name once, in printed order.
+		var node ast.ItemNode
+		if o := real.Try(func() { node = real.Build(cs.Item) }); o.Panicked {
+			return
+		}
+		vars := node.Variables()
+		r := rng.New(rng.HashStr(ref.Print(cs.Item)))
+		for step := 0; step < 4 && len(vars) >= 2; step++ {
+			a, b := vars[r.Intn(len(vars))], vars[r.Intn(len(vars))]
+			if ref.IsEllipsisName(a) || ref.IsEllipsisName(b) {
+				continue
+			}
+			var val interface{} = b // rename a to b (collides unless a == b)
+			if r.Chance(1, 3) {
+				val = ast.NewUintNode(1, b) // an item bringing the name b (accepted only where a is a list variable)
+			} else if r.Chance(1, 3) {
+				val = b + "_fresh"
+			}
+			var next ast.ItemNode
+			if o := real.Try(func() { next = node.FillVariables(map[string]interface{}{a: val}) }); o.Panicked {
+				c.Class("rename-refused")
+				continue
+			}
+			c.Class("rename-accepted")
+			c16Item(c, cs, next, nil)
+			node, vars = next, next.Variables()
+		}
 	case "derived":
 		// observe, derive, observe again: the observers of a derived message must agree with each other
 		// whatever was asked of the message it was derived from
@@ -252,13 +281,40 @@ func runC16(c *ctx) {
 				c16Eval(c, c16Case{Source: "message", Msg: m})
 			} else if i%8 == 7 && len(it.Vars()) > 0 && !p.Ellipsis {
 				c16Eval(c, c16Case{Source: "derived", Msg: m})
+				c16Eval(c, c16Case{Source: "rename", Item: it})
 			} else {
 				m.Session = -1
 				c16Eval(c, c16Case{Source: "parsed", Text: ref.PrintMsg(m)})
 			}
 		}
 	})
-	c.Required = []string{"object/direct", "object/expanded", "object/message", "object/derived", "object/parsed", "variable-free", "with-variables"}
+	// variables at positions beyond 65536 inside one wide item, on both sides of a multiple of 65536
+	for _, k := range []ref.Kind{ref.U1, ref.I2, ref.F4, ref.B, ref.BOOLEAN} {
+		n := 65536 + 6 + int(k)
+		it := &ref.Item{Kind: k, Slots: make([]ref.Slot, n)}
+		for _, pos := range []int{10, 65535, 65536, n - 1, 3} {
+			it.Slots[pos].Var = fmt.Sprintf("p%d", pos)
+		}
+		c.Class("wide-item-with-variables")
+		c16Eval(c, c16Case{Source: "direct", Item: it})
+		c16Eval(c, c16Case{Source: "direct", Item: &ref.Item{Kind: ref.L, Children: []*ref.Item{it, {Var: "after"}}}})
+	}
+	// whatever the factories let through has no variables and therefore must encode (also just beyond the size limit,
+	// where the factory is expected to refuse)
+	for _, k := range []ref.Kind{ref.F4, ref.F8, ref.I8, ref.U4, ref.I2} {
+		n := ref.MaxBytes/k.Width() + 1
+		var node ast.ItemNode
+		o := real.Try(func() { node = c13Build(k, n) })
+		c.NoteBulk(1, 1)
+		c.Class("item-just-beyond-the-limit")
+		if !o.Panicked {
+			cs := c16Case{Source: "beyond-limit", Text: fmt.Sprintf("%s x %d", k, n)}
+			if len(node.Variables()) == 0 && len(node.ToBytes()) == 0 {
+				c.Violation("C16/encodable-iff-no-variables/beyond-limit", fmt.Sprintf("%s with %d elements was constructed, has no variables, and encodes to nothing", k, n), cs)
+			}
+		}
+	}
+	c.Required = []string{"item-just-beyond-the-limit", "wide-item-with-variables", "rename-refused", "rename-accepted", "object/direct", "object/expanded", "object/message", "object/derived", "object/parsed", "variable-free", "with-variables"}
 }
 
 func replayC16(c *ctx, raw json.RawMessage) {
